@@ -36,7 +36,12 @@ def run_property(prop, tier):
     if prop not in S_PROPS:
         return None
     build_s = build()
-    if not has_configs(prop):
+    rc_l, out_l, _, _ = run([BIN, "list", prop, "--tier", "thorough"], timeout=300)
+    if rc_l != 0:
+        # the configurations could not even be enumerated (a panic in code they are built from): never a silent skip
+        return dict(violations=[], errors=["symx list %s failed (rc %s): %s" % (prop, rc_l, (out_l or "").strip()[-300:])],
+                    coverage={"summary": "configurations could not be built"}, evaluations=0, distinct=0, samples=[], rule="S: not run", assumptions=[])
+    if not out_l.strip():
         return None
     shards = int(os.environ.get("SYMX_SHARDS", "14"))
     outdir = os.path.join(BUILD, "symx_out")
